@@ -381,7 +381,7 @@ var fortune = ev.Register(&ev.P[birthCase]{
 
 func genBirth(t *rapid.T) birthCase {
 	var m ref.DT
-	switch rapid.IntRange(0, 5).Draw(t, "kind") {
+	switch rapid.IntRange(0, 6).Draw(t, "kind") {
 	case 0, 1:
 		y := gen.Year(t, 2, 9700)
 		js := jies(y)
@@ -399,14 +399,40 @@ func genBirth(t *rapid.T) birthCase {
 	case 3:
 		m = gen.MomentIn(t, 2, 9700)
 		m.H = 23
-	case 4:
+	case 4, 6:
 		y := gen.Year(t, 2, 9700)
 		d := 28
-		if ref.IsLeap(y) && rapid.Bool().Draw(t, "feb29") {
+		forced := rapid.Bool().Draw(t, "leapYear")
+		if forced && y >= 8 {
+			y -= y % 4
+		}
+		if ref.IsLeap(y) && (forced || rapid.Bool().Draw(t, "feb29")) {
 			d = 29
 		}
 		h, mi, s := gen.Time(t)
 		m = ref.DT{Y: y, M: 2, D: d, H: h, Mi: mi, S: s}
+		if d == 29 && rapid.IntRange(0, 3).Draw(t, "structuredOffset") > 0 {
+			// a leap-day birth whose minute-school start offset (3 days = 1 year: 4320 min a year, 360 a month, 12 a day) has a
+			// day component at a month edge: the start date is the leap day moved by whole years (clamped to Feb 28) and then
+			// by months and days, so the edges of the day component are where the two orders of stepping part
+			ts := gen.Terms(y)
+			x, sign := ts[6], int64(-1) // forward: counted up to Jingzhe
+			if rapid.Bool().Draw(t, "fromLichun") {
+				x, sign = ts[4], 1 // backward: counted from Lichun
+			}
+			day0 := ref.DT{Y: y, M: 2, D: 29}.Sec()
+			lo := (x.Sec() - (day0 + 86399)) / 60 // minutes between the end of the leap day and the term
+			if sign > 0 {
+				lo = (day0 - x.Sec()) / 60
+			}
+			if lo < 0 {
+				lo = 0
+			}
+			T := (lo/360+1)*360 + int64(360*rapid.IntRange(0, 3).Draw(t, "block")+12*rapid.SampledFrom([]int{0, 1, 2, 3, 28, 29}).Draw(t, "offDay")+rapid.IntRange(0, 11).Draw(t, "offHour"))
+			if c := ref.FromSec(x.Sec() + sign*T*60 + int64(rapid.IntRange(0, 59).Draw(t, "sec"))); c.M == 2 && c.D == 29 {
+				m = c
+			}
+		}
 	default:
 		m = gen.MomentIn(t, 2, 9700)
 	}
